@@ -87,6 +87,7 @@ type world struct {
 }
 
 var sendDeadline time.Duration
+var failNoPeers bool
 
 func setup(R time.Duration, npipes int) *world {
 	w := &world{R: R}
@@ -123,6 +124,15 @@ func setup(R time.Duration, npipes int) *world {
 		if err := c.SetOption(mangos.OptionSendDeadline, sendDeadline); err != nil {
 			kit.Failf("setup", "ctx.SetOption(SendDeadline): %v", err)
 		}
+	}
+	if failNoPeers {
+		if err := s.SetOption(mangos.OptionFailNoPeers, true); err != nil {
+			kit.Failf("setup", "SetOption(FailNoPeers): %v", err)
+		}
+		if err := c.SetOption(mangos.OptionFailNoPeers, true); err != nil {
+			kit.Failf("setup", "ctx.SetOption(FailNoPeers): %v", err)
+		}
+		kit.Count("fail-no-peers-set")
 	}
 	w.ctxs = append(w.ctxs, &mctx{name: "ctx1", c: c, s: s})
 	return w
@@ -243,7 +253,9 @@ func (w *world) events() []kit.Event {
 			last := m.cur.txs[len(m.cur.txs)-1]
 			if w.pipes[last.pipe].Alive() {
 				evs = append(evs, kit.Event{Name: "reply:" + m.name, Run: func() { w.doReply(m, last.pipe) }})
-				evs = append(evs, kit.Event{Name: "drop-carrier:" + m.name, Run: func() { w.doDrop(last.pipe) }})
+				if !(failNoPeers && w.alive() == 1) {
+					evs = append(evs, kit.Event{Name: "drop-carrier:" + m.name, Run: func() { w.doDrop(last.pipe) }})
+				}
 			}
 		}
 	}
@@ -259,7 +271,7 @@ func (w *world) events() []kit.Event {
 				carries = true
 			}
 		}
-		if !carries {
+		if !carries && !(failNoPeers && w.alive() == 1) {
 			evs = append(evs, kit.Event{Name: "drop-idle", Run: func() { w.doDrop(i) }})
 			break
 		}
@@ -462,6 +474,9 @@ func hist(depth int, R time.Duration) {
 		sendDeadline = R / 4
 		kit.Count("send-deadline-set")
 	}
+	// With fail-no-peers set nothing changes as long as one peer is left (these histories never
+	// drop the last one: what happens then is C18's business).
+	failNoPeers = R > 0 && kit.ChooseFree(2) == 1
 	w := setup(R, 2)
 	kit.Hist(depth, w.events, w.settle)
 	// run every remaining timer out: nothing that is done may be transmitted again
@@ -495,6 +510,7 @@ func cfgEarly() (c vsched.Config) {
 func schedTimerVsReply() {
 	R := 10 * time.Second
 	sendDeadline = 0
+	failNoPeers = false
 	w := setup(R, 2)
 	m := w.ctxs[0]
 	sc := kit.Start("Send", func() (interface{}, error) { return nil, m.send([]byte("the-request")) })
